@@ -23,5 +23,6 @@ def run(project, rep):
     rep.run(G.g_r11_unreachable_ofxhome_sets_nothing, project, rep)
     rep.run(G.g_r12_fid_repair_keeps_the_element, project, rep)
     rep.run(G.g_r13_nickname_looked_up_as_given, project, rep)
+    rep.run(G.g_r14_write_always_writes, project, rep)
     from .. import rules_values as V
     rep.run(V.v_r8_token_tables, project, rep, modules_prefix=("ofxtools.scripts.ofxget",))
